@@ -86,6 +86,9 @@ def expected(sel, x):
     return {"f > a": [{"a": a}], "f > b": [{"b": b}], "f(a) > b": [{"a": a, "b": b}]}[sel]
 
 
+_CFG = {"same": None}  # index into SELS when every thread uses that one selector (set by build() from the case parameters)
+
+
 def setup(nthreads, rounds):
     """Fresh function, probes (not activated) and per-thread plan."""
     from ptera import probing
@@ -99,7 +102,7 @@ def setup(nthreads, rounds):
         rs = []
         for r in range(rounds[i]):
             # a thread re-activates the same selector in its second round (a third round would move on to the next one)
-            sel = SELS[(i + r // 2) % len(SELS)]
+            sel = SELS[(i + r // 2) % len(SELS)] if _CFG["same"] is None else SELS[_CFG["same"]]
             s = select(sel, env=ns)
             pr = probing(s)
             got = []
@@ -382,7 +385,8 @@ def build(case):
     nthreads, rounds, P = p["threads"], p["rounds"], p["P"]
     lo, hi = p.get("lo", 0), p.get("hi", 400)
     MAXPOS = p.get("maxpos", 400)
-    window = p.get("window")  # thorough 3-thread tier: the second preemption at most `window` steps after the first
+    window = p.get("window")  # the second preemption at most `window` steps after the first
+    _CFG["same"] = p.get("same")  # every thread activates the same selector (identical capture sets)
 
     def run(*a):
         pos = []
@@ -445,6 +449,12 @@ def cases(tier, seed):
 
     shards("2thr-1round-P2", {"threads": 2, "rounds": [1, 1], "P": 2}, 11, 176, 3000 if th else 280)
     shards("2thr-rounds12-P1", {"threads": 2, "rounds": [1, 2], "P": 1}, 32, 256, 3000 if th else 280)
+    # both threads activate the very same selector (identical capture sets: shared counters, same variant)
+    if th:
+        shards("2thr-same0-P2", {"threads": 2, "rounds": [1, 1], "P": 2, "same": 0}, 11, 176, 3000)
+        shards("2thr-same2-P2", {"threads": 2, "rounds": [1, 1], "P": 2, "same": 2}, 11, 176, 3000)
+    else:
+        shards("2thr-same0-P2w", {"threads": 2, "rounds": [1, 1], "P": 2, "same": 0, "window": 40}, 22, 176, 280)
     if th:
         shards("2thr-rounds12-P2", {"threads": 2, "rounds": [1, 2], "P": 2}, 8, 256, 20000)
         shards("2thr-rounds22-P2", {"threads": 2, "rounds": [2, 2], "P": 2}, 8, 336, 20000)
